@@ -224,7 +224,9 @@ class MessageBatch:
                 record_timestamp = metadata.timestamp
             else:
                 record_timestamp = timestamp
-            offset = base_offset + metadata.offset
+            # A base offset of -1 means the broker did not report where the batch
+            # is (e.g. a duplicate it no longer holds metadata for)
+            offset = base_offset + metadata.offset if base_offset != -1 else -1
             future.set_result(
                 _record_metadata_class(
                     topic,
